@@ -540,7 +540,7 @@ func (gg *goGen) gen(e *Expr, bound map[string]bool, old bool) string {
 				return "int(" + f.Name + "(" + gg.gen(e.Args[1], bound, old) + "))"
 			case "min", "max":
 				return fmt.Sprintf("%s(%s, %s)", f.Name, gg.gen(e.Args[1], bound, old), gg.gen(e.Args[2], bound, old))
-			case "base", "fresh", "typeis", "as", "deref", "isnan":
+			case "base", "fresh", "typeis", "as", "deref", "cell", "isnan":
 				return gg.fail("%s() is not executable", f.Name)
 			}
 			if sf := gg.x.g.lookupSpec(gg.x.c.Pkg, f.Name); sf != nil {
